@@ -20,6 +20,19 @@ from . import common as C
 from . import simk
 from . import simlog as L
 
+class _Null:
+    """JSON null in canonical values (None means 'absent')"""
+    def __repr__(self):
+        return "JNULL"
+
+    def __eq__(self, o):
+        return isinstance(o, _Null)
+
+    def __hash__(self):
+        return 7
+
+
+JNULL = _Null()
 INT_MAX = 2147483647
 INT_MIN = -2147483648
 
@@ -103,7 +116,7 @@ def parse_tokens(toks, i=0):
     """line-protocol tokens -> canonical value (numbers as float, strings as bytes, objects as ('obj', pairs))."""
     t = toks[i]
     if t == "n":
-        return None, i + 1
+        return JNULL, i + 1
     if t == "t":
         return True, i + 1
     if t == "f":
@@ -136,7 +149,9 @@ def parse_tokens(toks, i=0):
 def canon_text(b):
     """JSON text printed by the daemon -> canonical value (same form as parse_tokens)."""
     def conv(v):
-        if isinstance(v, bool) or v is None:
+        if v is None:
+            return JNULL
+        if isinstance(v, bool):
             return v
         if isinstance(v, (int, float)):
             return float(v)
@@ -152,7 +167,9 @@ def canon_text(b):
 
 def canon_ast(v):
     """generator AST -> canonical value"""
-    if isinstance(v, bool) or v is None:
+    if v is None:
+        return JNULL
+    if isinstance(v, bool):
         return v
     if isinstance(v, (int, float)):
         return float(v)
@@ -184,6 +201,8 @@ def show(v):
         return "[" + ",".join(show(x) for x in v) + "]"
     if is_obj(v):
         return "{" + ",".join(show(k) + ":" + show(x) for k, x in v[1]) + "}"
+    if v == JNULL:
+        return "null"
     return json.dumps(v)
 
 
@@ -412,13 +431,15 @@ def model_script(sc, tr):
             lines.append("connect %d %d %d %s" % (c, 1 if trn == "ws" else 0, local, C.hexs(addr.encode())))
             opmap.append(si)
         if k == "msg" or k == "batch":
-            items = [(st[1], st[2])] if k == "msg" else st[1]
+            items = [(st[1], st[2])] if k == "msg" else batch_order(st[1])
+            if len(items) > 1:
+                lines.append("oracle " + sends)
             for c, value in items:
                 if isinstance(value, bytes):
                     toks = parse_with_cjson_semantics(value)
                 else:
                     toks = jtokens(value)
-                lines.append("msg %d %s %d %d %s" % (c, sends if len(items) == 1 else "-", ixf, rtf, " ".join(toks) if toks else "!"))
+                lines.append("msg %d %s %d %d %s" % (c, sends if len(items) == 1 else "=", ixf, rtf, " ".join(toks) if toks else "!"))
                 opmap.append(si)
         elif k == "reply":
             if si in tr.replies:
@@ -429,13 +450,25 @@ def model_script(sc, tr):
             lines.append("disc %d %s" % (st[1], sends))
             opmap.append(si)
         elif k == "advance":
+            if len(tr.expired[si]) > 1:
+                lines.append("oracle " + sends)
             for t in tr.expired[si]:
-                lines.append("timer %d %s" % (t, sends if len(tr.expired[si]) == 1 else "-"))
+                lines.append("timer %d %s" % (t, sends if len(tr.expired[si]) == 1 else "="))
                 opmap.append(si)
         elif k == "quiesce":
             lines.append("dump")
             opmap.append(si)
     return lines, opmap
+
+
+def batch_order(items):
+    """messages of one epoll batch in the order the daemon processes them: connection by connection
+    (first appearance), each connection's messages in their own order"""
+    order = []
+    for c, _ in items:
+        if c not in order:
+            order.append(c)
+    return [(c, v) for cc in order for c, v in items if c == cc]
 
 
 def parse_with_cjson_semantics(text):
@@ -581,7 +614,7 @@ def compare(sc, itr, mtr, strict_errors=False):
                     except Exception:
                         a.append((s[1], ("unparsable", s[3])))
             b = [(s[1], project(s[2], strict_errors)) for s in mtr.sends[si] if s[0] == c]
-            if st[0] in ("eof", "rst", "err", "advance"):
+            if st[0] in ("eof", "rst", "err", "advance") or itr.closed[si] or mtr.closed[si]:
                 # teardown/expiry order inside one table follows slot order, which the model abstracts
                 a = sorted(a, key=repr)
                 b = sorted(b, key=repr)
